@@ -358,6 +358,7 @@ fn write_data_to_stream<F: Read + Write + Seek>(
     }
     let new_stream_len =
         old_stream_len.max(buf_offset_from_start + buf.len() as u64);
+    let mut old_mini_chain_to_free: Option<u32> = None;
     let new_start_sector = if old_start_sector == consts::END_OF_CHAIN {
         // Case 1: The stream has no existing chain.  The stream is empty, and
         // we are writing at the start.
@@ -403,7 +404,9 @@ fn write_data_to_stream<F: Read + Write + Seek>(
             let mut tmp = vec![0u8; buf_offset_from_start as usize];
             let mut chain = minialloc.open_mini_chain(old_start_sector)?;
             chain.read_exact(&mut tmp)?;
-            chain.free()?;
+            // (The old mini chain is released once the entry refers to the
+            // new chain, see resize_stream.)
+            old_mini_chain_to_free = Some(old_start_sector);
             let mut chain = minialloc
                 .open_chain(consts::END_OF_CHAIN, SectorInit::Zero)?;
             chain.write_all(&tmp)?;
@@ -426,7 +429,11 @@ fn write_data_to_stream<F: Read + Write + Seek>(
     minialloc.with_dir_entry_mut(stream_id, |dir_entry| {
         dir_entry.start_sector = new_start_sector;
         dir_entry.stream_len = new_stream_len;
-    })
+    })?;
+    match old_mini_chain_to_free {
+        Some(start_sector) => minialloc.free_mini_chain(start_sector),
+        None => Ok(()),
+    }
 }
 
 /// Writes `count` zero bytes at the current position of `writer`.
@@ -448,6 +455,37 @@ fn resize_stream<F: Read + Write + Seek>(
         debug_assert_eq!(dir_entry.obj_type, ObjType::Stream);
         (dir_entry.start_sector, dir_entry.stream_len)
     };
+    // So that an I/O error half-way cannot leave the directory entry pointing
+    // at sectors that have already been released (which would make the
+    // stream unreadable), the entry is updated before any of the stream's
+    // sectors are released, and after the sectors it will refer to have been
+    // allocated and written.
+    if old_start_sector != consts::END_OF_CHAIN
+        && (new_stream_len < old_stream_len || new_stream_len == 0)
+    {
+        let is_mini = old_stream_len < consts::MINI_STREAM_CUTOFF as u64;
+        let stays = (new_stream_len < consts::MINI_STREAM_CUTOFF as u64)
+            == is_mini;
+        if new_stream_len == 0 {
+            // Cases 2a and 3a: The new length is zero.  Detach the chain from
+            // the entry, then free it.
+            minialloc.with_dir_entry_mut(stream_id, |dir_entry| {
+                dir_entry.start_sector = consts::END_OF_CHAIN;
+                dir_entry.stream_len = 0;
+            })?;
+            return if is_mini {
+                minialloc.free_mini_chain(old_start_sector)
+            } else {
+                minialloc.free_chain(old_start_sector)
+            };
+        } else if stays {
+            // Cases 2b and 3c, shrinking: record the new length first.
+            minialloc.with_dir_entry_mut(stream_id, |dir_entry| {
+                dir_entry.stream_len = new_stream_len;
+            })?;
+        }
+    }
+    let mut old_chain_to_free: Option<(u32, bool)> = None;
     let new_start_sector = if old_start_sector == consts::END_OF_CHAIN {
         // Case 1: The stream has no existing chain.  We will allocate a new
         // chain that is all zeroes.
@@ -476,9 +514,8 @@ fn resize_stream<F: Read + Write + Seek>(
     } else if old_stream_len < consts::MINI_STREAM_CUTOFF as u64 {
         // Case 2: The stream currently exists in a mini chain.
         if new_stream_len == 0 {
-            // Case 2a: The new length is zero.  Free the existing mini chain.
-            minialloc.free_mini_chain(old_start_sector)?;
-            consts::END_OF_CHAIN
+            // Case 2a: The new length is zero (handled above).
+            unreachable!()
         } else if new_stream_len < consts::MINI_STREAM_CUTOFF as u64 {
             // Case 2b: The new length is still small enough to fit in a mini
             // chain.  Therefore, we just need to adjust the length of the
@@ -500,7 +537,7 @@ fn resize_stream<F: Read + Write + Seek>(
             let mut tmp = vec![0u8; old_stream_len as usize];
             let mut chain = minialloc.open_mini_chain(old_start_sector)?;
             chain.read_exact(&mut tmp)?;
-            chain.free()?;
+            old_chain_to_free = Some((old_start_sector, true));
             let mut chain = minialloc
                 .open_chain(consts::END_OF_CHAIN, SectorInit::Zero)?;
             chain.write_all(&tmp)?;
@@ -510,9 +547,8 @@ fn resize_stream<F: Read + Write + Seek>(
     } else {
         // Case 3: The stream currently exists in a regular chain.
         if new_stream_len == 0 {
-            // Case 3a: The new length is zero.  Free the existing chain.
-            minialloc.free_chain(old_start_sector)?;
-            consts::END_OF_CHAIN
+            // Case 3a: The new length is zero (handled above).
+            unreachable!()
         } else if new_stream_len < consts::MINI_STREAM_CUTOFF as u64 {
             // Case 3b: The new length is small enough to fit in a mini chain.
             // Therefore, we should migrate the stream into a new mini chain.
@@ -521,7 +557,7 @@ fn resize_stream<F: Read + Write + Seek>(
             let mut chain =
                 minialloc.open_chain(old_start_sector, SectorInit::Zero)?;
             chain.read_exact(&mut tmp)?;
-            chain.free()?;
+            old_chain_to_free = Some((old_start_sector, false));
             let mut chain = minialloc.open_mini_chain(consts::END_OF_CHAIN)?;
             chain.write_all(&tmp)?;
             chain.start_sector_id()
@@ -552,7 +588,13 @@ fn resize_stream<F: Read + Write + Seek>(
     minialloc.with_dir_entry_mut(stream_id, |dir_entry| {
         dir_entry.start_sector = new_start_sector;
         dir_entry.stream_len = new_stream_len;
-    })
+    })?;
+    // Now that the entry refers to the new chain, release the old one.
+    match old_chain_to_free {
+        Some((start_sector, true)) => minialloc.free_mini_chain(start_sector),
+        Some((start_sector, false)) => minialloc.free_chain(start_sector),
+        None => Ok(()),
+    }
 }
 
 //===========================================================================//
